@@ -214,6 +214,9 @@ func cmdCheck(args []string) int {
 	var vcs []*VC
 	fidx := map[string]bool{}
 	for _, short := range claim.Functions {
+		w.claimed[fullKey(short)] = true
+	}
+	for _, short := range claim.Functions {
 		if *only != "" && !strings.Contains(short, *only) {
 			continue
 		}
